@@ -220,6 +220,7 @@ type Reply struct {
 	Chaddr, DstMAC net.HardwareAddr
 	DstIP          uint32
 	Opts           [][2]interface{} // (code byte, value []byte) in wire order
+	Hdr            string           // fixed BOOTP header fields, see showHdr
 }
 
 func decodeReply(f []byte) (r Reply, ok bool) {
@@ -236,6 +237,14 @@ func decodeReply(f []byte) (r Reply, ok bool) {
 	r.Xid = uint32(p[4])<<24 | uint32(p[5])<<16 | uint32(p[6])<<8 | uint32(p[7])
 	r.Yi = uint32(p[16])<<24 | uint32(p[17])<<16 | uint32(p[18])<<8 | uint32(p[19])
 	r.Chaddr = append(net.HardwareAddr{}, p[28:34]...)
+	zero := "T"
+	for _, b := range p[34:236] { // chaddr padding, sname, file
+		if b != 0 {
+			zero = "F"
+		}
+	}
+	r.Hdr = fmt.Sprintf(";h=%02x%02x%02x%02x,%02x%02x,%02x%02x,%s,%s,%s,%s,%s", p[0], p[1], p[2], p[3], p[8], p[9], p[10], p[11],
+		hex.EncodeToString(p[12:16]), hex.EncodeToString(p[20:24]), hex.EncodeToString(p[24:28]), zero, hex.EncodeToString(p[236:240]))
 	o := p[240:]
 	for len(o) >= 1 && o[0] != 255 {
 		if o[0] == 0 {
@@ -363,8 +372,9 @@ func init() {
 
 func NewServer(c Cfg) *Server { return NewServerFile(c, "") }
 
-// NewServerFile builds the session and handler on the given lease file ("" = a fresh temporary one).
-func NewServerFile(c Cfg, file string) *Server {
+// NewServerFile builds the session and handler on the given lease file ("" = a fresh temporary one);
+// the MACs in pre are captured in the session BEFORE the handler is constructed (they are captured at load time).
+func NewServerFile(c Cfg, file string, pre ...net.HardwareAddr) *Server {
 	nic := &packet.NICInfo{
 		HomeLAN4:    netip.PrefixFrom(ip4(c.HomeIP), c.HomeBits),
 		HostAddr4:   packet.Addr{MAC: c.HostMAC, IP: ip4(c.HostIP)},
@@ -373,6 +383,9 @@ func NewServerFile(c Cfg, file string) *Server {
 		RouterLLA:   netip.PrefixFrom(lib.RouterLLA, 64),
 	}
 	s, conn := lib.NewSessionWith(nic)
+	for _, m := range pre {
+		s.Capture(m)
+	}
 	dir := os.Getenv("VERIF_SCRATCH")
 	if dir == "" {
 		dir = os.TempDir()
@@ -455,7 +468,7 @@ func (sv *Server) Step(tok string) (string, *Reply) {
 			}
 			out += ",rec" + rec
 		}
-		return out, &rs[0]
+		return out + rs[0].Hdr, &rs[0]
 	}
 	return fmt.Sprintf("multi%d", len(rs)), nil
 }
@@ -513,7 +526,12 @@ func RunRestart(a []string) string {
 		svA.Step(o)
 	}
 	file := svA.CloseKeep()
-	sv := NewServerFile(cB, file)
+	var pre []net.HardwareAddr
+	for len(opsB) > 0 && strings.HasPrefix(opsB[0], "P,") { // captured before the handler is constructed
+		pre = append(pre, net.HardwareAddr(unhx(opsB[0][2:])))
+		opsB = opsB[1:]
+	}
+	sv := NewServerFile(cB, file, pre...)
 	sv.Shared = make([]byte, packet.EthMaxSize)
 	defer sv.Close()
 	out := make([]string, 0, len(opsB))
